@@ -188,23 +188,22 @@ impl FormMultipartData {
         // body for specific part may end with a new line or carriage return and a new line
         // in both cases new line carriage return delimiter is not part of the body
         let body_length = part.body.len();
-        if body_length > 2 { // check if body itself is present
-            let is_new_line_carriage_return_ending =
-                *part.body.get(body_length-2).unwrap() == b'\r'
-                    && *part.body.get(body_length-1).unwrap() == b'\n';
+        let is_new_line_carriage_return_ending =
+            body_length >= 2
+                && *part.body.get(body_length-2).unwrap() == b'\r'
+                && *part.body.get(body_length-1).unwrap() == b'\n';
 
-            let is_new_line_ending =
-                *part.body.get(body_length-2).unwrap() != b'\r'
-                    && *part.body.get(body_length-1).unwrap() == b'\n';
+        let is_new_line_ending =
+            !is_new_line_carriage_return_ending
+                && body_length >= 1
+                && *part.body.get(body_length-1).unwrap() == b'\n';
 
-            if is_new_line_carriage_return_ending {
-                part.body.remove(body_length - 1); // removing \n
-                part.body.remove(body_length - 2); // removing \r
-            }
+        if is_new_line_carriage_return_ending {
+            part.body.truncate(body_length - 2); // removing \r\n
+        }
 
-            if is_new_line_ending {
-                part.body.remove(body_length - 1); // removing \n
-            }
+        if is_new_line_ending {
+            part.body.truncate(body_length - 1); // removing \n
         }
 
 
